@@ -38,6 +38,8 @@ type genServer struct {
 	files map[string][]byte // stem -> body
 	hits  map[string]int
 	other []string
+	chunk int            // > 0: bodies are sent in pieces of this many bytes, flushed one by one (chunked transfer)
+	cut   map[string]int // stem -> the first response for it declares the full length and is aborted after this many bytes
 	srv   *http.Server
 	base  string
 }
@@ -63,6 +65,33 @@ func (g *genServer) handle(w http.ResponseWriter, r *http.Request) {
 		if body, ok := g.files[stem]; ok {
 			g.hits[stem]++
 			w.Header().Set("Content-Type", "text/plain; charset=utf-8")
+			if j, ok := g.cut[stem]; ok && g.hits[stem] == 1 {
+				// transport fault: the transfer breaks off (a retry gets the whole file)
+				if j < 0 {
+					panic(http.ErrAbortHandler) // the connection drops before any answer
+				}
+				w.Header().Set("Content-Length", fmt.Sprint(len(body)))
+				w.WriteHeader(200)
+				w.Write(body[:j])
+				if f, ok := w.(http.Flusher); ok {
+					f.Flush()
+				}
+				panic(http.ErrAbortHandler)
+			}
+			if g.chunk > 0 {
+				f, _ := w.(http.Flusher)
+				for i := 0; i < len(body); i += g.chunk {
+					e := i + g.chunk
+					if e > len(body) {
+						e = len(body)
+					}
+					w.Write(body[i:e])
+					if f != nil {
+						f.Flush()
+					}
+				}
+				return
+			}
 			w.Write(body)
 			return
 		}
@@ -76,6 +105,20 @@ func (g *genServer) set(files map[string][]byte) {
 	g.files = files
 	g.hits = map[string]int{}
 	g.other = nil
+	g.cut = nil
+	g.chunk = 0
+	g.mu.Unlock()
+}
+
+func (g *genServer) setChunk(n int) {
+	g.mu.Lock()
+	g.chunk = n
+	g.mu.Unlock()
+}
+
+func (g *genServer) setCut(cut map[string]int) {
+	g.mu.Lock()
+	g.cut = cut
 	g.mu.Unlock()
 }
 
@@ -162,7 +205,28 @@ func equalLists(a, b []string) bool {
 // runGenerator runs the real tool once against srv with the given ten bodies and
 // returns a description of every deviation from the oracle.
 func runGenerator(tool string, srv *genServer, bodies map[string][]byte, keepDir string) (problems []string, mach error) {
+	return runGeneratorFault(tool, srv, bodies, keepDir, nil)
+}
+
+// runGeneratorFault is runGenerator with transfers that break off (cut: stem -> bytes delivered
+// before the connection is aborted). A tool that then exits non-zero has failed closed and is not
+// judged further; one that exits 0 must have produced the faithful lists all the same.
+func runGeneratorFault(tool string, srv *genServer, bodies map[string][]byte, keepDir string, cut map[string]int) (problems []string, mach error) {
 	srv.set(bodies)
+	srv.setCut(cut)
+	blocked := -1
+	if b, ok := cut["#block"]; ok && len(cut) == 1 {
+		// file-system fault rather than a transport fault: the output path of one target cannot be
+		// opened for writing (a directory sits there)
+		blocked = b
+		srv.setCut(nil)
+	}
+	if c, ok := cut["#chunk"]; ok {
+		// delivery pattern rather than a fault: every body arrives in flushed pieces of c bytes
+		srv.setCut(nil)
+		srv.setChunk(c)
+		cut = nil
+	}
 	dir := keepDir
 	if dir == "" {
 		var err error
@@ -175,6 +239,11 @@ func runGenerator(tool string, srv *genServer, bodies map[string][]byte, keepDir
 	if err := os.MkdirAll(filepath.Join(dir, "internal", "wordlist"), 0755); err != nil {
 		return nil, err
 	}
+	if blocked >= 0 {
+		if err := os.MkdirAll(filepath.Join(dir, "internal", "wordlist", genTargets[blocked].stem+".go", "x"), 0755); err != nil {
+			return nil, err
+		}
+	}
 	ctx, cancel := context.WithTimeout(context.Background(), 120*time.Second)
 	defer cancel()
 	cmd := exec.CommandContext(ctx, tool)
@@ -185,6 +254,9 @@ func runGenerator(tool string, srv *genServer, bodies map[string][]byte, keepDir
 		return []string{"the tool did not finish within 120 s"}, nil
 	}
 	if err != nil {
+		if len(cut) > 0 {
+			return nil, nil
+		}
 		return []string{fmt.Sprintf("the tool failed: %v: %s", err, lastLines(string(out), 3))}, nil
 	}
 	srv.mu.Lock()
@@ -448,6 +520,96 @@ func runC17(tier string) int {
 			}
 		}
 	}
+	// transport faults (one deviation from the default environment answer per run; thorough: two):
+	// the transfer of one target breaks off after j bytes although the full length was announced.
+	// Exit status 0 is only acceptable with ten faithful files.
+	{
+		small := map[string][]byte{}
+		for k, t := range genTargets {
+			small[t.stem] = []byte(fmt.Sprintf("%s\n%s\nz%d\n", synthWord(k), synthWord(k+100), k))
+		}
+		type fcase struct {
+			bodies map[string][]byte
+			cut    map[string]int
+			desc   string
+		}
+		var fcases []fcase
+		for _, t := range genTargets {
+			n := len(canon.bodies[t.stem])
+			for _, j := range []int{-1, 0, 1, n / 2, n - 1} {
+				desc := fmt.Sprintf("canonical lists, %s.txt breaks off after %d of %d bytes", t.stem, j, n)
+				if j < 0 {
+					desc = fmt.Sprintf("canonical lists, the connection for %s.txt drops before any answer", t.stem)
+				}
+				fcases = append(fcases, fcase{canon.bodies, map[string]int{t.stem: j}, desc})
+			}
+			for j := 0; j < len(small[t.stem]); j++ {
+				if tier != "thorough" && j%3 != 0 && j != len(small[t.stem])-1 {
+					continue
+				}
+				fcases = append(fcases, fcase{small, map[string]int{t.stem: j}, fmt.Sprintf("three-word lists, %s.txt breaks off after %d of %d bytes", t.stem, j, len(small[t.stem]))})
+			}
+		}
+		if tier == "thorough" {
+			for a := range genTargets {
+				for b := a + 1; b < len(genTargets); b++ {
+					sa, sb := genTargets[a].stem, genTargets[b].stem
+					fcases = append(fcases, fcase{canon.bodies, map[string]int{sa: len(canon.bodies[sa]) / 2, sb: len(canon.bodies[sb]) - 1}, fmt.Sprintf("canonical lists, %s.txt and %s.txt break off", sa, sb)})
+				}
+			}
+		}
+		for k, t := range genTargets {
+			if tier == "thorough" || k%4 == 0 {
+				fcases = append(fcases, fcase{small, map[string]int{"#block": k}, fmt.Sprintf("three-word lists, the output path of %s is a directory", t.stem)})
+			}
+		}
+		// delivery patterns (no fault: the tool must succeed): bodies arrive in flushed pieces
+		for _, n := range []int{1, 7, 1000, 4096} {
+			fcases = append(fcases, fcase{canon.bodies, map[string]int{"#chunk": n}, fmt.Sprintf("canonical lists delivered in pieces of %d bytes", n)})
+		}
+		for _, n := range []int{1, 2, 5} {
+			fcases = append(fcases, fcase{small, map[string]int{"#chunk": n}, fmt.Sprintf("three-word lists delivered in pieces of %d bytes", n)})
+		}
+		fprobs := make([][]string, len(fcases))
+		ferrs := make([]error, len(fcases))
+		fch := make(chan int, len(fcases))
+		for i := range fcases {
+			fch <- i
+		}
+		close(fch)
+		var wg3 sync.WaitGroup
+		for s := 0; s < nsrv; s++ {
+			wg3.Add(1)
+			go func() {
+				defer wg3.Done()
+				srv := newGenServer()
+				defer srv.srv.Close()
+				for i := range fch {
+					fprobs[i], ferrs[i] = runGeneratorFault(tool, srv, fcases[i].bodies, "", fcases[i].cut)
+				}
+			}()
+		}
+		wg3.Wait()
+		nRec := 0
+		for i, fc := range fcases {
+			if ferrs[i] != nil {
+				die("generator fault run %s: %v", fc.desc, ferrs[i])
+			}
+			r.Evaluations += 10
+			for _, p := range fprobs[i] {
+				r.ViolationCount++
+				if nRec < 6 && len(r.Violations) < 40 {
+					nRec++
+					cs := map[string]interface{}{"kind": "generator-fault", "bodies": map[string]string{}, "cut": fc.cut}
+					for k, v := range fc.bodies {
+						cs["bodies"].(map[string]string)[k] = fmt.Sprintf("%x", v)
+					}
+					r.Violations = append(r.Violations, Violation{Key: fmt.Sprintf("gen:fault:%s:%d", fc.desc, len(r.Violations)), What: fc.desc + ": " + p, Case: cs})
+				}
+			}
+		}
+		r.Extra["transport_fault_runs"] = len(fcases)
+	}
 	// regeneration histories: the tool is normally run over the files of an earlier run (the
 	// committed ones). Every ordered pair of input shapes, two runs in the same directory: what the
 	// second run leaves must be the second input's lists, whatever the first run wrote.
@@ -586,7 +748,7 @@ func runC17(tier string) int {
 		os.RemoveAll(dir)
 	}
 	r.Distinct = int64(len(distinctLists))
-	r.Rule = fmt.Sprintf("the real update-wordlist binary (built from the current tree with -tags verif) is run with its HTTP fetches redirected to a loopback server owned by the check; enumerated inputs: every file of <=%d lines over the line alphabet %+q (blank line, ASCII, precomposed and decomposed accents, Han, kana, conjoining jamo, letters beyond U+FFFF), with and without trailing LF, ten pairwise different files per tool run assigned to the ten targets by rotation (thorough: every file to every target), plus the size ladder 1/2047/2048/2049/5000/20000/100000 lines, files with words of 4095...2^20+1 letters and the ten canonical lists (with and without trailing LF). Oracle: tool exits 0, each of the ten expected URLs requested, each generated file parses and its variable holds exactly the non-empty input lines byte for byte in order (read from the []string literal, or, when the list is written in another representation, by compiling the generated package and printing its variables); canonical run reproduces the committed lists and compiles with go build; regeneration histories: every ordered pair of six input shapes (canonical, 0/1/3/2048/5000 words) as two runs in the same directory, the second run judged by the same oracle. distinct_nontrivial = distinct input files", maxLines, lineAlphabet)
+	r.Rule = fmt.Sprintf("the real update-wordlist binary (built from the current tree with -tags verif) is run with its HTTP fetches redirected to a loopback server owned by the check; enumerated inputs: every file of <=%d lines over the line alphabet %+q (blank line, ASCII, precomposed and decomposed accents, Han, kana, conjoining jamo, letters beyond U+FFFF), with and without trailing LF, ten pairwise different files per tool run assigned to the ten targets by rotation (thorough: every file to every target), plus the size ladder 1/2047/2048/2049/5000/20000/100000 lines, files with words of 4095...2^20+1 letters and the ten canonical lists (with and without trailing LF). Oracle: tool exits 0, each of the ten expected URLs requested, each generated file parses and its variable holds exactly the non-empty input lines byte for byte in order (read from the []string literal, or, when the list is written in another representation, by compiling the generated package and printing its variables); canonical run reproduces the committed lists and compiles with go build; delivery patterns: the canonical and three-word lists arriving in flushed pieces of 1/7/1000/4096 resp. 1/2/5 bytes; transport faults: the transfer of one target (thorough: also of two) gets no answer at all or breaks off after 0, 1, half or all but one of the announced bytes (three-word lists: every third offset, thorough every offset) or the output path of one target cannot be opened (a directory sits there), and only a non-zero exit status or ten faithful files are acceptable; regeneration histories: every ordered pair of six input shapes (canonical, 0/1/3/2048/5000 words) as two runs in the same directory, the second run judged by the same oracle. distinct_nontrivial = distinct input files", maxLines, lineAlphabet)
 	r.Extra["enumerated_files"] = nEnumerated
 	r.Extra["tool_runs"] = len(batches) + 1
 	r.Samples = append(r.Samples, map[string]interface{}{"input": "a\n\n\u00e9\nbc", "expected_list": []string{"a", "\u00e9", "bc"}}, map[string]interface{}{"input": batches[len(batches)/2].desc})
@@ -623,6 +785,7 @@ func replayC17(path string) int {
 		Case struct {
 			Bodies   map[string]string `json:"bodies"`
 			Previous map[string]string `json:"previous"`
+			Cut      map[string]int    `json:"cut"`
 		} `json:"case"`
 	}
 	if err := jsonUnmarshal(data, &rep); err != nil {
@@ -657,7 +820,7 @@ func replayC17(path string) int {
 			fmt.Println("replay: the first run of the history already fails:", p0, err)
 		}
 	}
-	probs, err := runGenerator(tool, srv, bodies, dir)
+	probs, err := runGeneratorFault(tool, srv, bodies, dir, rep.Case.Cut)
 	if err != nil {
 		die("%v", err)
 	}
